@@ -444,6 +444,16 @@ func c05Chain(r *RunCtx, c int) error {
 			res := e.Run(&storagetypes.MsgPostFile{Creator: users[0].String(), Merkle: root, FileSize: int64(len(data)), MaxProofs: 3, Expires: exp, Note: "{}"})
 			r.Hist("chain_msgs", "storage.MsgPostFile(directed):"+res.Out)
 			files = append(files, posted{root, users[0].String(), e.Height, item, pj})
+			// a second small file with an extreme (but valid) replication count; one account proves it once and then goes
+			// silent, so a later reward block has to remove it
+			data2 := []byte(fmt.Sprintf("wide-file-%d", c))
+			root2, item2, pj2 := c05OneChunkFile(data2)
+			res = e.Run(&storagetypes.MsgPostFile{Creator: users[0].String(), Merkle: root2, FileSize: int64(len(data2)), MaxProofs: 1 << 45, Expires: e.Height + 14400*2, Note: "{}"})
+			r.Hist("chain_msgs", "storage.MsgPostFile(directed, MaxProofs 2^45):"+res.Out)
+			if res.Out == OutOk {
+				res = e.Run(&storagetypes.MsgPostProof{Creator: users[2].String(), Item: item2, HashList: pj2, Merkle: root2, Owner: users[0].String(), Start: e.Height, ToProve: 0})
+				r.Hist("chain_msgs", "storage.MsgPostProof(directed, once):"+res.Out)
+			}
 		} else if p.Chance(2, 3) {
 			f := files[0]
 			for _, who := range []string{Spell(users[1], true), Spell(users[2], p.Chance(1, 2))} {
